@@ -390,9 +390,11 @@ fn scenario(line: &str) -> String {
     LOWERED.with(|l| l.borrow_mut().clear());
     DEFAULTS.with(|d| d.set(0));
     let mut toks = line.split_whitespace();
-    let version = match toks.next() {
-        Some("v1") => 1,
-        Some("v2") => 2,
+    // `v0` (probe only, not part of the model): the API calls are made with NO current task
+    let (version, in_task) = match toks.next() {
+        Some("v0") => (2, false),
+        Some("v1") => (1, true),
+        Some("v2") => (2, true),
         _ => return "BAD-INPUT".into(),
     };
     let task = drive::MockTask::new(1, version);
@@ -461,10 +463,11 @@ fn scenario(line: &str) -> String {
                     let Some(Ok(fi)) = parts.get(1).map(|s| s.parse::<usize>()) else { return Out::Skip };
                     if fi >= futs.len() { return Out::Skip; }
                     let arg: u32 = parts.get(2).and_then(|s| s.parse().ok()).unwrap_or(0);
-                    task.enter(|| match &mut futs[fi] {
+                    let mut go = || match &mut futs[fi] {
                         AnyFut::U(f) => f.act(op, arg, fi, &waker),
                         AnyFut::H(f) => f.act(op, arg, fi, &waker),
-                    })
+                    };
+                    if in_task { task.enter(go) } else { go() }
                 }
             }
         });
